@@ -356,4 +356,30 @@ MUTANTS = [
          new="            if kind_hint { return CalleeCheckDecision::NoNeed; }\n",
          edits_extra=[("        let edge_is_dirty = engine.is_edge_dirty(*query_id, *callee).await;\n", "        let edge_is_dirty = engine.is_edge_dirty(*query_id, *callee).await;\n        let kind_hint = current_query_kind.is_firewall();\n")],
          expect="C03.d/check_callee/skip-clean-edges"),
+    # ------------------------------------------------------------------ C06
+    dict(id="C06.a-probe-only-before-first-repair", prop="C06", file=CG[:-1] + ".rs",
+         old="            match self.exit_scc(&query.id, caller).await {",
+         new="            match if status == QueryStatus::Repaired { Ok(true) } else { self.exit_scc(&query.id, caller).await } {",
+         expect="C06.a/query_for/probe-every-iteration"),
+    dict(id="C06.b-wait-before-probe", prop="C06", file=CG + "computing.rs",
+         old="        let is_in_scc =\n            self.check_cyclic(&running_state, &query_caller.query_id());",
+         new="        notified.await;\n        let is_in_scc =\n            self.check_cyclic(&running_state, &query_caller.query_id());",
+         edits_extra=[("        notified.await;\n\n        Ok(false)", "        Ok(false)")],
+         expect="C06.b/exit_scc/probe-before-wait"),
+    dict(id="C06.b-error-without-mark", prop="C06", file=CG + "computing.rs",
+         old="            computing.mark_scc();\n",
+         new="            let _ = computing;\n",
+         expect="C06.b/exit_scc/mark-then-error"),
+    dict(id="C06.b-visitor-stops-early", prop="C06", file=CG + "computing.rs",
+         old="            else {\n                return true;\n            };\n\n            found |= self.check_cyclic_internal(&state, target);",
+         new="            else {\n                return false;\n            };\n\n            found |= self.check_cyclic_internal(&state, target);",
+         expect="C06.b/check_cyclic_internal/marks-and-recurses"),
+    dict(id="C06.c-resume-panic-inside-scc", prop="C06", file=CG + "slow_path.rs",
+         old="        let value = if is_in_scc {",
+         new="        let value = if is_in_scc && result.is_ok() {",
+         expect="C06.c/execute_query/scc-decides-value"),
+    dict(id="C06.b-final-check-skipped-for-repaired", prop="C06", file=CG[:-1] + ".rs",
+         old="        Self::is_query_running_in_scc(caller)?;\n",
+         new="        if value.status == QueryStatus::UpToDate { Self::is_query_running_in_scc(caller)?; }\n",
+         expect="C06.b/is_query_running_in_scc/err-iff-flag"),
 ]
